@@ -793,6 +793,11 @@ def penc_flag_ok(sp, tr, pe, wants, area_kw=None):
         return False
     if pe in wants:
         return True
+    if isinstance(pe, tuple) and pe[:1] == ("encreq",) and wants:
+        # the normal form of the request (tpmsa.encreq): True exactly when a session of THE area sets THE direction's bit,
+        # None otherwise (and for an absent area)
+        bit = "encrypt" if dict(wants[0][1][1]).get("for_response") == ("const", True) else "decrypt"
+        return area_kw is not None and pe[1] == area_kw and pe[2] == bit and pe[3] == (None, True, None)
     if isinstance(pe, tuple) and pe[:1] == ("ornone",) and any(same_call(pe[1], w) for w in wants):
         return True
     for key, val in tr.decisions.items():
